@@ -22,6 +22,8 @@ COMMITTED = {
     "dgram_recv_slice": True,     # C12_dgram_recv_slice.diff     outdata_recv.c: mpt_array_slice(off, len) arguments swapped
     "dgram_reply_long": True,     # C12_dgram_reply_long.diff     outdata_reply.c: reply longer than 256 bytes copies from NULL
     "dgram_push_cid": True,       # C12_dgram_push_cid.diff       connection_push.c: datagram backend never clears con->cid
+    "dgram_shared_buf": True,     # C12_dgram_shared_buf.diff     outdata_push.c: outgoing message appended behind the datagram received before
+    "assign_stream": True,        # C12_assign_stream.diff        connection_assign.c: first stream socket goes to mpt_stream_dopen(NULL, ...)
 }
 
 
@@ -32,12 +34,14 @@ def con_needs(case):
         return set()
     dg, idl = t[1] == "d", int(t[2])
     need = set()
+    if t[1] == "a":
+        need.add("assign_stream")       # stream socket handed over with mpt_connection_assign
     ops, i = [], 3
     while i < len(t):
         n = ARITY.get(t[i], 0)
         ops.append(t[i:i + n + 1])
         i += n + 1
-    seen_tx = marked = False
+    seen_tx = marked = recvd = False
     for o in ops:
         if o[0] == "tx":
             seen_tx = True
@@ -47,6 +51,7 @@ def con_needs(case):
             if not seen_tx:
                 continue        # nothing to receive: the dispatcher returns before it looks at a message
             if dg:
+                recvd = True
                 need |= {"dgram_recv_slice", "next_size"}
                 if o[0] == "dp0":
                     need.add("dgram_nocmd_reply")
@@ -58,11 +63,15 @@ def con_needs(case):
             if marked:
                 need.add("answer_once")
         elif o[0] == "sy" and seen_tx:
+            recvd = True
             need.add("dgram_recv_slice" if dg else "stream_sync")
             if marked:
                 need.add("answer_once")
-        elif o[0] in ("aw", "ps") and dg:
-            need.add("dgram_push_cid")
+        elif o[0] in ("aw", "ps", "pe") and dg:
+            if o[0] != "pe":
+                need.add("dgram_push_cid")
+            if recvd:
+                need.add("dgram_shared_buf")    # the buffer still holds the datagram received before
         elif o[0] == "hr" and dg and o[2] not in ("null", "-") and len(o[2]) // 2 > 256 - idl:
             need.add("dgram_reply_long")
     return need
@@ -70,6 +79,9 @@ def con_needs(case):
 
 def con_enabled(case):
     return all(COMMITTED[k] for k in con_needs(case))
+
+
+ID_ALPHA = [0x00, 0x01, 0x7f, 0x80, 0x81, 0xff]      # boundary values of one id byte
 
 
 def hx(bs):
@@ -109,7 +121,19 @@ class C12(DiffProperty):
             "dp0 (dispatch without handler), hr (reply through a deferred handle, also while an outgoing message is composed and after "
             "the connection is released), aw / ps..pe (await + push of an outgoing request, in one piece or left open), sy (sync), cl "
             "(release): 57 hand-written histories (among them the id space of a one-byte header used up and recycled) + 3000 random "
-            "ones (quick); only those whose behaviour does not depend on a patch of docs/C12_*.diff that is not yet committed are run "
+            "ones (quick). Backend letter: d = datagram socketpair handed over with mpt_connection_assign, s = stream opened with "
+            "mpt_connection_open to a listening unix socket, a = stream socketpair handed over with mpt_connection_assign + default "
+            "encoding. Wait table (command_reserve.c incl. compaction, command_get.c): n = 1..8 requests in flight (1..10 thorough), EVERY "
+            "subset of them answered, a new await, then an answer for every id ever handed out (open ones must reach their waiter once, "
+            "answered ones nobody) and one more round - 510 layouts for 2-byte ids on a stream + 126 each for 1-byte ids and datagrams + 62 "
+            "for 8-byte ids; 2000 random wait-table histories (up to 8 in flight; answers oldest-first / newest-first / alternating / "
+            "random; answers repeated, to ids answered earlier and to ids never handed out; delivery by dispatch or sync; awaits in "
+            "between; several rounds). Incoming ids from the boundary alphabet {00,01,7f,80,81,ff} per byte: every combination for id "
+            "widths 1..3 (1..4 thorough), for widths 4..9 every single position x value over a background of 00/80/ff bytes, equal bytes, "
+            "first/second/last byte against the rest + random combinations; each on stream and datagram (and assigned stream), dispatched "
+            "without handler, answered at once, answered twice, left to the generic answer (code 0 / not 0), deferred and answered or "
+            "released later (five messages per connection); the same alphabet for stream_input.c (sin) and in the random histories. "
+            "Only those whose behaviour does not depend on a patch of docs/C12_*.diff that is not yet committed are run "
             "(constant COMMITTED in props/c12.py). A case is non-trivial when it is an id case with id != 0, a history that arms at "
             "least one request, or a connection history; distinct = distinct case text")
     modelled = ("mptcore/message/message_id.c, mptcore/event/reply_set.c, reply_deferrable.c (contextSend/Set/Defer/Unref/Ref/Conv/"
@@ -125,15 +149,21 @@ class C12(DiffProperty):
                 "abstracted to queues of complete messages; mpt_stream_reply/push/flush/poll, mpt_outdata_* and the COBS codec are executed "
                 "but not modelled (C01/C02/C13); the value returned by next() of the stream backend and the code for 'no message' "
                 "(MissingData or 0) are not compared; the property/conversion/log functions of output_remote.c (remoteConv, remoteProperty, "
-                "remoteSetProperty, remoteLog), a socket address part of datagrams (_smax, never set by the library) and pushes on the "
-                "datagram backend after a receive (input and output share one buffer) are outside the model. "
+                "remoteSetProperty, remoteLog), a socket address part of datagrams (_smax, never set by the library) are outside the model; "
+                "mpt_connection_open / mpt_connection_assign / the encoding property set the connection up in the harness and are "
+                "executed, not modelled (the model starts from the open connection); the datagram backend keeps input and output in one "
+                "buffer (out.buf): modelled as two (what the code does WITH docs/C12_dgram_shared_buf.diff), a push while a received "
+                "datagram waits for its dispatch is refused with ActiveInput and the waiter is called with NULL (modelled as is); "
+                "next(POLLOUT) on the datagram backend is not called by the harness (on /repo it sends the datagram received before back "
+                "to the peer: same root cause, see docs/notes_C12.md). "
                 "mptio/stream/stream_input.c (streamMessage/streamReply + stream_reply.c) is modelled at correspondence level "
                 "only (sin_request, no theorem)")
     trusted = ["harness/c12_reply.c: the transport is the harness' send callback (logs rd->val[0..len) and the flattened message, "
                "answers from the script); state is read directly from the structures (reply_deferrable.c is #included), "
                "frees are observed by wrapping malloc/free of that file",
-               "harness/c12_conn.c plays the peer on the other end of the socketpair (own COBS codec), sets con.out._idlen directly (no "
-               "library function does; examples/io/mclient.c does the same), attaches the stream the way mpt_connection_open does, calls "
+               "harness/c12_conn.c plays the peer on the other end of the socket (own COBS codec), sets con.out._idlen directly (no "
+               "library function does; examples/io/mclient.c does the same), opens the backend with mpt_connection_open (listening unix "
+               "socket of the harness) or mpt_connection_assign (socketpair) + mpt_connection_set(\"encoding\", default), calls "
                "next(POLLIN) while the descriptor is readable and next(POLLOUT) after operations that write (what the notifier would do), "
                "reads the reply context, the handles and the wait table straight from the structures (output_remote.c and "
                "reply_deferrable.c are #included)",
@@ -156,7 +186,11 @@ class C12(DiffProperty):
                   "C12_conn_answer_routing + C12_conn_answered_once + C12_conn_reserve_fresh + C12_conn_wait_ids_distinct (an answer "
                   "reaches the handler registered under its id and releases it; mpt_command_reserve incl. its compaction loop hands out an "
                   "id no slot in use has, so the ids a connection waits for are distinct after every history and a second answer finds "
-                  "nobody), C12_conn_refines_spec (the connection over the "
+                  "nobody; C12_conn_reserve_table: after the compaction loop the table is exactly the slots that were in use, in their order, "
+                  "followed by the new slot - no waiter lost, doubled or reordered), C12_conn_zero_test_per_byte + "
+                  "C12_conn_request_any_nonzero_byte + C12_conn_notification_all_zero (the dispatchers treat a message as a request as "
+                  "soon as ONE id byte, in any position, differs from 0 - 0x80/0xff behind the first byte are id content - and only an id "
+                  "of zero bytes as a notification), C12_conn_refines_spec (the connection over the "
                   "mechanism = the connection over the abstract specification). The models are tied to the code on every run by "
                   "differential execution (boundary ids x widths, exhaustive short histories, random histories, connection histories "
                   "over real sockets) under ASan/UBSan with allocation tracking")
@@ -165,9 +199,11 @@ class C12(DiffProperty):
                   "(hypothesis wf_op of the reply theorems; the dispatchers never hand an id with the bit set to a handler: proved for the "
                   "connection model, where the arm operation is issued only in the branch without mark). "
                   "A non-final unref of the context detaches the transport (code and specification agree; open requests are then dropped). "
-                  "The connection model describes /repo WITH the patches docs/C12_*.diff (9 defects found when the files were first executed; "
-                  "replays docs/C12_replay_*.json give VIOLATION on the unpatched tree); until they are committed the generator runs only the "
-                  "connection histories that behave the same with and without them (COMMITTED in props/c12.py). "
+                  "The connection model describes /repo WITH the patches docs/C12_*.diff (9 defects found when the files were first executed, "
+                  "committed meanwhile; 2 more in files outside the anchors - docs/C12_dgram_shared_buf.diff, docs/C12_assign_stream.diff - "
+                  "not committed yet; replays docs/C12_replay_*.json give VIOLATION on the unpatched tree); until they are committed the "
+                  "generator runs only the connection histories that behave the same with and without them (COMMITTED in props/c12.py: no "
+                  "datagram push after a receive, no stream handed over with mpt_connection_assign). "
                   "C12_conn_request_answered_once needs the transport to accept (stream: no outgoing message being composed). "
                   "Kernel, COBS codec and the stream/outdata buffering below the connection are executed, not modelled (C01/C02/C13). "
                   "mpt_log output and malloc failure are not covered. "
@@ -332,17 +368,37 @@ class C12(DiffProperty):
             names = [o[0] for o in ops]
             for n in set(names):
                 cl.add("con:op:" + n)
+            if hdr[1] == "a":
+                cl.add("con:stream-assigned")
+            open_req = most = answers = 0
             for o in ops:
+                if o[0] in ("aw", "ps") and il:
+                    open_req += 1
+                    most = max(most, open_req)
                 if o[0] == "tx" and il:
                     b = bytes.fromhex(o[1]) if o[1] != "-" else b""
                     if len(b) < il:
                         cl.add("con:short-message")
                     elif b[0] & 0x80:
                         cl.add("con:answer")
+                        answers += 1
+                        open_req = max(0, open_req - 1)
+                        if open_req >= 3 and answers >= 2:
+                            cl.add("con:answers-with-3-more-in-flight")
                     elif not any(b[:il]):
                         cl.add("con:zero-id")
                     else:
                         cl.add("con:request")
+                        if any(x & 0x80 for x in b[1:il]):
+                            cl.add("con:request-id-high-bit-behind-first-byte")
+                        if all(x in (0, 0x80) for x in b[:il]):
+                            cl.add("con:request-id-only-00-80")
+                        if all(x in ID_ALPHA for x in b[:il]):
+                            cl.add("con:request-id-boundary-bytes")
+            if most >= 3:
+                cl.add("con:in-flight>=3")
+            if most >= 6:
+                cl.add("con:in-flight>=6")
                 if o[0] == "dp":
                     a = o[1].split(",")
                     if "d" in a:
@@ -456,7 +512,7 @@ class C12(DiffProperty):
         if mx == 0:
             return []
         ln = rng.choice([mx, mx, mx, max(1, mx - 1), 1])
-        b = [rng.choice([0, 1, 0x7f, rng.randrange(128)])] + [rng.choice([0, 0xff, rng.randrange(256)]) for _ in range(ln - 1)]
+        b = [rng.choice([0, 1, 0x7f, rng.randrange(128)])] + [rng.choice(ID_ALPHA + [rng.randrange(256)]) for _ in range(ln - 1)]
         return b
 
     def gen_payload(self, rng):
@@ -610,9 +666,12 @@ class C12(DiffProperty):
                 k = rng.random()
                 if il == 0:
                     m = payload() or [0x41]
-                elif k < 0.45:
+                elif k < 0.25:
                     v = rng.choice([1, 2, 0x7f, 0x100, rng.randrange(1, 2 ** (8 * il - 1))]) % 2 ** (8 * il - 1) or 1
                     m = idbytes(v) + payload()
+                elif k < 0.45:
+                    # request id from the boundary alphabet, byte by byte (first byte without reply mark)
+                    m = [rng.choice([0, 1, 0x7f])] + [rng.choice(ID_ALPHA) for _ in range(il - 1)] + payload()
                 elif k < 0.55:
                     m = [0] * il + payload()
                 elif k < 0.85:
@@ -648,7 +707,7 @@ class C12(DiffProperty):
                         recvd = True
                     pending = max(0, pending - 1)
             elif r < 0.72:
-                if dg and recvd:
+                if dg and recvd and not COMMITTED["dgram_shared_buf"]:
                     continue
                 if active:
                     ops += ["pe"]
@@ -674,7 +733,11 @@ class C12(DiffProperty):
                 ops += ["cl"]
                 closed = True
             nh = sum(1 for i in range(len(ops)) if ops[i] == "dp" and "d" in ops[i + 1].split(","))
-        return " ".join(["con", "d" if dg else "s", str(il)] + ops)
+        return " ".join(["con", "d" if dg else self.stream_letter(rng), str(il)] + ops)
+
+    def stream_letter(self, rng):
+        """stream backend: s = mpt_connection_open, a = mpt_connection_assign (+ encoding property)"""
+        return "a" if COMMITTED["assign_stream"] and rng.random() < 0.3 else "s"
 
     def gen_con_fixed(self):
         """hand-written connection histories (one per behaviour the random generator reaches rarely)"""
@@ -715,6 +778,198 @@ class C12(DiffProperty):
                "con s 1 " + " ".join("aw 51" for i in range(129)) + " tx 8161 sy aw 52"]
         return cs
 
+    # ------------------------------------------------------------------ wait table (command_reserve.c / command_get.c)
+    def gen_con_wait_exh(self, nmax, il=2, be="s"):
+        """n requests in flight (ids 1..n), EVERY subset of them answered, then a new await: the compaction loop of
+        mpt_command_reserve sees every layout of free and used slots of length n; afterwards an answer for every id
+        1..n+1 (the open ones must reach their waiter once, the answered ones nobody), and one more round"""
+        cs = []
+        for n in range(1, nmax + 1):
+            for mask in range(2 ** n):
+                def mk(v):
+                    b = list(v.to_bytes(il, "big"))
+                    b[0] |= 0x80
+                    return b
+                ops = []
+                for i in range(n):
+                    ops += ["aw", "%02x" % (0x51 + i)]
+                for i in range(n):
+                    if mask >> i & 1:
+                        ops += ["tx", hx(mk(i + 1) + [0x71 + i]), "dp", "-", "0"]
+                ops += ["aw", "60"]
+                for i in range(n + 1):
+                    ops += ["tx", hx(mk(i + 1) + [0x61 + i]), "dp", "-", "0"]
+                ops += ["aw", "6f", "tx", hx(mk(n + 2) + [0x7a]), "dp", "-", "0"]
+                cs.append(" ".join(["con", be, str(il)] + ops))
+        return cs
+
+    def gen_con_wait(self, rng, big=False):
+        """random history on the wait table: up to 8 requests in flight, answers oldest-first / newest-first / in random
+        order, answers to ids already answered and to ids never handed out, awaits in between; delivered through dispatch
+        (one message each) or sync (all that are pending)"""
+        dg = rng.random() < 0.25
+        be = "d" if dg else self.stream_letter(rng)
+        il = rng.choice([1, 2, 2, 2, 3, 4, 8])
+        cap = rng.choice([3, 4, 5, 6, 8, 8])
+        tab, hasbuf = [], False         # mirror of con->_wait: [id, in use]
+        gone = []                       # ids answered before
+        pend = []                       # ids of answers written by the peer, not consumed by the library yet
+        ops = []
+
+        def marked(v):
+            b = list((v % 2 ** (8 * il - 1)).to_bytes(il, "big"))
+            b[0] |= 0x80
+            return b
+
+        def live():
+            return [e[0] for e in tab if e[1]]
+
+        def consume(v):
+            for e in tab:
+                if e[1] and e[0] == v:
+                    e[1] = False
+                    gone.append(v)
+                    return True
+            return False
+
+        def deliver_one():
+            if pend:
+                consume(pend.pop(0))
+
+        def await_():
+            nonlocal tab, hasbuf
+            if not hasbuf:
+                tab, hasbuf = [[1, True]] + [[0, False] for _ in range(7)], True
+            else:
+                mid = max([e[0] for e in tab] or [0])
+                tab = [e for e in tab if e[1]]
+                tab.append([mid + 1, True])
+            ops.extend(["aw", hx([rng.randrange(0x20, 0x7f) for _ in range(rng.choice([0, 1, 1, 3]))])])
+
+        rounds = rng.randrange(6, 14) if big else rng.choice([2, 3, 3, 4, 5])
+        for _ in range(rounds):
+            room = cap - len(live())
+            for _ in range(rng.randrange(1, room + 1) if room > 0 else 0):
+                await_()
+            lv = live()
+            policy = rng.choice(["oldest", "oldest", "oldest", "newest", "random", "random", "alternate"])
+            na = rng.choice([0, 1, 2, 2, 3, len(lv), max(0, len(lv) - 1), max(0, len(lv) - 2), max(0, len(lv) - 3)])
+            batch = rng.random() < 0.25
+            sent = 0
+            for j in range(min(na, len(lv))):
+                r = rng.random()
+                if policy == "oldest":
+                    v = lv.pop(0)
+                elif policy == "newest":
+                    v = lv.pop()
+                elif policy == "alternate":
+                    v = lv.pop(0 if j % 2 == 0 else -1)
+                else:
+                    v = lv.pop(rng.randrange(len(lv)))
+                seq = [v]
+                if r < 0.15 and gone:
+                    seq = [rng.choice(gone), v]                 # an id that was answered before
+                elif r < 0.25:
+                    seq = [v, v]                                # the same answer twice
+                elif r < 0.30:
+                    seq = [rng.choice([0, max(lv + [v]) + 1, 0x7f, 2 ** (8 * il - 1) - 1]), v]      # an id nobody waits for
+                for x in seq:
+                    ops.extend(["tx", hx(marked(x) + [rng.randrange(0x61, 0x7b)])])
+                    pend.append(x)
+                    sent += 1
+                    if not batch:
+                        ops.extend(["dp", "-", "0"])
+                        deliver_one()
+            if batch and sent:
+                if rng.random() < 0.5 and not dg:
+                    ops.append("sy")
+                    cnt = len(live())
+                    while pend and cnt:
+                        if consume(pend.pop(0)):
+                            cnt -= 1
+                    if not cnt:
+                        tab = []
+                else:
+                    for _ in range(sent):
+                        ops.extend(["dp", "-", "0"])
+                        deliver_one()
+        return " ".join(["con", be, str(il)] + ops)
+
+    # ------------------------------------------------------------------ request ids from the boundary alphabet, per byte
+    def boundary_id_bytes(self, rng, w, full, nrand):
+        ids = set()
+        if full:
+            ids.update(itertools.product(ID_ALPHA, repeat=w))
+        else:
+            for pos in range(w):
+                for a in ID_ALPHA:
+                    for fill in (0x00, 0x80, 0xff):
+                        b = [fill] * w
+                        b[pos] = a
+                        ids.add(tuple(b))
+            for a in ID_ALPHA:
+                for b in ID_ALPHA:
+                    ids.add(tuple([a] + [b] * (w - 1)))
+                    ids.add(tuple([b] * (w - 1) + [a]))
+                    ids.add(tuple([0, a] + [b] * (w - 2)))
+            for _ in range(nrand):
+                ids.add(tuple(rng.choice(ID_ALPHA) for _ in range(w)))
+        return sorted(ids)
+
+    REQ_MODES = ["h0", "imm", "gen", "gen", "dfr", "dfn", "two"]
+
+    def gen_con_ids(self, rng, tier):
+        """incoming messages whose id bytes are all taken from {00,01,7f,80,81,ff}: every combination for id widths 1..3
+        (1..4 thorough), for wider ids every single byte position x value over a background of 00/80/ff bytes, equal
+        bytes, first/second/last byte against the rest and random combinations; each id dispatched without handler,
+        answered at once, twice, left to the generic answer (code 0 and not 0), deferred and answered / released later;
+        several requests per connection"""
+        cs = []
+        fullw = 3 if tier == "quick" else 4
+        backends = ["s", "d"] + (["a"] if COMMITTED["assign_stream"] else [])
+        for w in range(1, 10):
+            ids = self.boundary_id_bytes(rng, w, w <= fullw, 30 if tier == "quick" else 400)
+            for be in backends:
+                if be == "a" and tier == "quick" and w > 3:
+                    continue
+                nm = len(self.REQ_MODES) if w <= (3 if be != "a" else 2) else 3
+                reqs = []
+                off = rng.randrange(len(self.REQ_MODES))
+                for k, b in enumerate(ids):
+                    for q in range(nm):
+                        reqs.append((b, self.REQ_MODES[(off + k + q * 3) % len(self.REQ_MODES)] if nm < len(self.REQ_MODES)
+                                     else self.REQ_MODES[q]))
+                rng.shuffle(reqs)
+                per = 5
+                for i in range(0, len(reqs), per):
+                    ops, later, nh = [], [], 0
+                    for b, mode in reqs[i:i + per]:
+                        b = list(b)
+                        isreq = not (b[0] & 0x80) and any(b) and w <= 255
+                        ops += ["tx", hx(b + [rng.randrange(0x41, 0x5b) for _ in range(rng.choice([0, 1, 2]))])]
+                        if mode == "h0":
+                            ops += ["dp0"]
+                        elif mode == "imm":
+                            ops += ["dp", "r" + hx([rng.randrange(0x61, 0x7b)]), str(rng.choice([0, 0, 3]))]
+                        elif mode == "two":
+                            ops += ["dp", "r61,r62", "0"]
+                        elif mode == "gen":
+                            ops += ["dp", "-", str(rng.choice([0, 0, 1, -3, 5]))]
+                        else:
+                            ops += ["dp", "d", "0"]
+                            if isreq:
+                                h = ["hr", str(nh), "null" if mode == "dfn" else hx([rng.randrange(0x61, 0x7b)])]
+                                nh += 1
+                                if rng.random() < 0.5:
+                                    ops += h
+                                else:
+                                    later.append(h)
+                    rng.shuffle(later)
+                    for h in later:
+                        ops += h
+                    cs.append(" ".join(["con", be, str(w)] + ops))
+        return cs
+
     def gen_sin(self, rng):
         il = rng.choice([0, 1, 2, 2, 3, 4, 8, 9])
         wr = 0 if rng.random() < 0.1 else 1
@@ -746,8 +1001,19 @@ class C12(DiffProperty):
             toks += ["req", hx(msg), str(nrep), reps[0], reps[1], str(code)]
         return " ".join(toks)
 
+    def gen_sin_ids(self, rng, tier):
+        """stream input (stream_input.c has its own copy of the zero test): ids from the boundary alphabet per byte"""
+        cs = []
+        for w in range(1, 10):
+            for b in self.boundary_id_bytes(rng, w, w <= (3 if tier == "quick" else 4), 30 if tier == "quick" else 300):
+                for nrep in ((0, 1) if w <= 3 else (rng.choice([0, 1, 2]),)):
+                    cs.append("sin %d 1 req %s %d %s null %d" % (w, hx(list(b) + [0x41]), nrep, rng.choice(["6f6b", "null", "-"]),
+                                                                 rng.choice([0, 0, 3, -1])))
+        return cs
+
     def generate(self, rng, tier):
         cases = self.gen_id_cases(rng, tier)
+        cases += self.gen_sin_ids(rng, tier)
         for _ in range(600 if tier == "quick" else 20000):
             cases.append(self.gen_sin(rng))
         cases += self.gen_exhaustive(3 if tier == "quick" else 4)
@@ -757,6 +1023,16 @@ class C12(DiffProperty):
         con = self.gen_con_fixed()
         for i in range(3000 if tier == "quick" else 60000):
             con.append(self.gen_con(rng, big=(i % 25 == 0)))
+        # wait table: every layout of up to 8 (thorough: 10) slots before the compaction, both backends, + random histories
+        q = tier == "quick"
+        con += self.gen_con_wait_exh(8 if q else 10, 2, "s")
+        con += self.gen_con_wait_exh(6 if q else 8, 1, "s")
+        con += self.gen_con_wait_exh(6 if q else 8, 2, "d")
+        con += self.gen_con_wait_exh(5 if q else 8, 8, "a" if COMMITTED["assign_stream"] else "s")
+        for i in range(2000 if q else 40000):
+            con.append(self.gen_con_wait(rng, big=(i % 20 == 0)))
+        # incoming ids from the boundary alphabet per byte
+        con += self.gen_con_ids(rng, tier)
         # cases that depend on a patch which is not committed in /repo stay out (see COMMITTED)
         cases += [c for c in con if con_enabled(c)]
         # creation refused
